@@ -132,11 +132,8 @@ def add_defaults(lib):
 
 
 def tetris_inputs(chk):
-    try:
-        from . import c08
-        return c08.determinism_inputs(chk)
-    except Exception:
-        return []
+    from . import c08
+    return c08.determinism_inputs(chk)
 
 
 def replay(chk, path):
